@@ -262,6 +262,57 @@ macro_rules! k_c09_ans {
         }
     };
 }
+/// C09 `c09_ans_step`: ONE failing `encode_symbol` (impossible symbol, or a write fault of the sink)
+/// from ANY invariant state leaves the raw parts (state word, bulk length and contents) exactly as they
+/// were -- the sufficient condition under which every later observation equals the one without the
+/// failed call (the observational form is `k_c09_ans`).
+macro_rules! k_c09_ans_step {
+    ($name:ident, $W:ty, $S:ty, $Pr:ty, $P:expr) => {
+        #[no_mangle]
+        pub extern "C" fn $name(state: $S, w0: $W, len: u32, c1: $Pr, c2: $Pr, bad: u8, fail_at: u32) -> u32 {
+            if len > 1 || fail_at > 1 {
+                return 1;
+            }
+            if len == 1 && state < ((1 as $S) << (<$S>::BITS - <$W>::BITS)) {
+                return 1;
+            }
+            let m = Cuts::<$Pr, $P> { c1, c2 };
+            if !m.valid() {
+                return 1;
+            }
+            let sink = FailAt { inner: ArrStack { words: [w0, 0, 0, 0], len: len as usize }, writes: 0, fail_at: fail_at as usize };
+            let mut coder = AnsCoder::<$W, $S, FailAt<$W, 4>>::from_raw_parts(sink, state);
+            let r = coder.encode_symbol(bad, m);
+            if bad > 2 {
+                match r {
+                    Err(constriction::CoderError::Frontend(_)) => {}
+                    _ => return 2,
+                }
+            } else {
+                match r {
+                    Ok(()) => return 1, // ordinary successful encode: C01's business
+                    Err(constriction::CoderError::Backend(_)) => {}
+                    Err(constriction::CoderError::Frontend(_)) => return 3, // encodable symbol reported impossible
+                }
+            }
+            let (b, st) = coder.into_raw_parts();
+            if st != state {
+                return 4;
+            }
+            if b.inner.len != len as usize || b.inner.words[0] != w0 || b.inner.words[1] != 0 {
+                return 5;
+            }
+            0
+        }
+    };
+}
+k_c09_ans_step!(k_c09_ans_step_u8_u16_p4, u8, u16, u8, 4);
+k_c09_ans_step!(k_c09_ans_step_u8_u16_p8, u8, u16, u8, 8);
+k_c09_ans_step!(k_c09_ans_step_u8_u32_p8, u8, u32, u8, 8);
+k_c09_ans_step!(k_c09_ans_step_u16_u32_p12, u16, u32, u16, 12);
+k_c09_ans_step!(k_c09_ans_step_u32_u64_p24, u32, u64, u32, 24);
+k_c09_ans_step!(k_c09_ans_step_u32_u64_p32, u32, u64, u32, 32);
+
 k_c09_ans!(k_c09_ans_u8_u16_p4, u8, u16, u8, 4);
 k_c09_ans!(k_c09_ans_u8_u16_p8, u8, u16, u8, 8);
 k_c09_ans!(k_c09_ans_u16_u32_p12, u16, u32, u16, 12);
